@@ -35,7 +35,7 @@ ASSUMPTIONS = [
     "document files agree with the declared document-count (the loader enforces this when it builds the offset table) and contain no lone CR inside a line",
     "a 'client' of the id-conflict clause is the shared parameter source of a worker group (co-located clients share one source and one id range)",
     "for on-conflict=index a conflicting id cannot be told from a first use by looking at the requests; the id clause is decided on 'update' actions and on repeated ids",
-    "ingest-percentage: the expected stop index is ceil(p * bulks / 100) in exact decimal arithmetic; values that ceil() yields within +-2 ulp of that product are accepted",
+    "ingest-percentage: the expected stop index is ceil(p * bulks / 100) in exact decimal arithmetic; also accepted are the exact value for the double nearest to p and the documented formula evaluated in doubles as (bulks * p) / 100",
     "the bulks of a group at 100% are taken from a second execution of the same group without ingest-percentage (metamorphic reference)",
     "percent_completed is read before every params() call, as ScheduleHandle.__call__ does; an exception while reading it counts as a value outside [0,1]",
 ]
@@ -209,6 +209,15 @@ def gen_case(rng, tier, shard):
     if ingest == "tiny":
         ingest = rng.choice(["0.0001", "1e-09", "0.5", "0.01"])
     groups, split = gen_groups(rng, n)
+    if not big and not conflicts and rng.random() < 0.06:
+        # percentage grid: one file, one client, a round number of bulks and a whole-number percentage, so that p% of the bulks is often an
+        # integer - the place where a differently ordered float computation adds or loses a whole bulk
+        nb = rng.choice([100, 100, 50, 150, 200, 300, 20, 25, 40, 400])
+        b = rng.choice([1, 1, 2, 3])
+        corpora = [{"name": "c0", "files": [{"spec": {"docs": nb * b, "meta": False, "crlf": 0, "mb": False, "eofnl": True, "seed": 4242}, "index": "idx0"}]}]
+        op = {"bulk-size": b}
+        n, groups, split = 1, [[0]], {"mode": "one"}
+        ingest = str(rng.randint(1, 99))
     case = {
         "kind": "files", "corpora": corpora, "clients": n, "groups": groups, "split": split, "op": op, "ingest": ingest,
         "table": "built" if rng.random() < 0.85 else "absent",
@@ -616,14 +625,12 @@ def run_group(obs, ex, tr, case, gi, group, ingest, max_calls):
 
 
 def accepted_stops(n100, pstr):
+    """ceil(p% of n100). Accepted: the exact value for p as written, the exact value for the double nearest to p (the parameter is a float), and
+    the documented formula evaluated in doubles in its natural order, (n * p) / 100. An answer outside this set counts a bulk too many or
+    too few by any reading - e.g. 7% of 100 bulks is 7 bulks, and 100 * (7 / 100) = 7.000000000000001 -> 8 is not."""
     exact = Fraction(pstr) * n100 / 100
     want = math.ceil(exact)
-    acc = {want}
-    f = float(exact)
-    lo = hi = f
-    for _ in range(2):
-        lo, hi = math.nextafter(lo, -math.inf), math.nextafter(hi, math.inf)
-    acc.update({math.ceil(f), math.ceil(lo), math.ceil(hi)})
+    acc = {want, math.ceil(Fraction(float(pstr)) * n100 / 100), math.ceil((n100 * float(pstr)) / 100)}
     return want, {a for a in acc if 0 <= a <= n100}
 
 
